@@ -152,6 +152,10 @@ func NewFloatFromString(typ *types.FloatType, s string) (*Float, error) {
 			}
 			f := float128ppc.NewFromBits(a, b)
 			x, nan := f.Big()
+			if nan && a>>63 != 0 {
+				// Store sign of NaN.
+				x.SetFloat64(-1)
+			}
 			return &Float{Typ: typ, X: x, NaN: nan}, nil
 		// half (IEEE 754 half precision)
 		case strings.HasPrefix(s, "0xH"):
@@ -306,15 +310,16 @@ func NewFloatFromString(typ *types.FloatType, s string) (*Float, error) {
 // the midpoint of two doubles was read as the lower one).
 func parseDecimal(s string, prec uint) (*big.Float, error) {
 	const base = 10
-	if _, _, err := big.ParseFloat(s, base, prec, big.ToNearestEven); err != nil {
-		return nil, err
-	}
 	f64, err := strconv.ParseFloat(s, 64)
 	if err != nil {
 		// Out of range literals are read as infinity (or zero).
 		if e, ok := err.(*strconv.NumError); !ok || e.Err != strconv.ErrRange {
 			return nil, err
 		}
+	} else if _, _, err := big.ParseFloat(s, base, prec, big.ToNearestEven); err != nil {
+		// (big.ParseFloat gives up on exponents that strconv reports as out of
+		// range, hence the syntax check for in-range literals only.)
+		return nil, err
 	}
 	if prec == 24 {
 		f64 = float64(float32(f64))
@@ -479,6 +484,15 @@ func (c *Float) Ident() string {
 				a, b = float128ppc.NegNaN.Bits()
 			}
 			return fmt.Sprintf("0x%c%016X%016X", hexPrefix, a, b)
+		}
+		if c.X.IsInf() {
+			// The sign of an infinity is kept here (float128ppc.NewFromBig
+			// yields positive infinity for either sign).
+			inf := math.Float64bits(math.Inf(+1))
+			if c.X.Signbit() {
+				inf = math.Float64bits(math.Inf(-1))
+			}
+			return fmt.Sprintf("0x%c%016X%016X", hexPrefix, inf, uint64(0))
 		}
 		f, acc := float128ppc.NewFromBig(c.X)
 		if acc != big.Exact {
